@@ -223,6 +223,15 @@ func drawValues(t *rapid.T) func(label string) float64 {
 		ratio = gen.LogUniform(t, 1e3, 1e6, "ratioBig")
 	}
 	offset := gen.Sign(t, "sign") * ratio * spread
+	if rapid.IntRange(0, 3).Draw(t, "pool") == 0 {
+		// a small pool of exactly representable values: runs of identical values, parts with
+		// exactly equal means, constant parts
+		k := rapid.IntRange(1, 4).Draw(t, "poolSize")
+		base := math.Round(offset)
+		return func(label string) float64 {
+			return base + float64(rapid.IntRange(0, k-1).Draw(t, label))
+		}
+	}
 	return func(label string) float64 {
 		// quantised: rapid's floats include values like 1e-155 whose square underflows
 		return offset + spread*math.Round(rapid.Float64Range(-1, 1).Draw(t, label)*1e6)/1e6
